@@ -407,14 +407,28 @@ class UserActions(object):
     table = self._engine.tables[table_id]
     next_row_id = 1 if replace else table.next_row_id()
 
-    # Make a copy of row_ids and fill in those set to None.
+    # Explicitly requested row ids must be positive and must not repeat within the request;
+    # otherwise the ids we return would not name distinct new rows (0 never becomes a row, and a
+    # repeated id becomes a single row). An id that is already in use is refused by the doc action.
+    # Automatic ids start above all existing AND all explicitly requested ids, so that they cannot
+    # collide with an explicit id that comes later in the list.
+    seen = set()
+    for row_id in row_ids:
+      if row_id is None or row_id < 0:
+        continue
+      if row_id > 1000000:
+        raise ValueError("Row ID too high")
+      if row_id == 0 or row_id in seen:
+        raise ValueError("Row ID %s is invalid or repeated" % row_id)
+      seen.add(row_id)
+      next_row_id = max(next_row_id, row_id + 1)
+
+    # Make a copy of row_ids and fill in those set to None (or to a temporary negative id).
     filled_row_ids = row_ids[:]
     for i, row_id in enumerate(filled_row_ids):
       if row_id is None or row_id < 0:
-        filled_row_ids[i] = row_id = next_row_id
-      elif row_id > 1000000:
-        raise ValueError("Row ID too high")
-      next_row_id = max(next_row_id, row_id) + 1
+        filled_row_ids[i] = next_row_id
+        next_row_id += 1
 
     # Whenever we add new rows, remember the mapping from any negative row_ids to their final
     # values. This allows the negative_row_ids to be used as Reference values in subsequent
